@@ -20,6 +20,34 @@ for n in names:
     m = json.load(open(os.path.join(ROOT, "seeded", n, "meta.json")))
     items.append(f"  - seeded/{n}/ (patch.diff, demo.py, meta.json): {m.get('summary')}\n      needs: {m.get('needs')}\n")
 low = pid.lower()
+if items:
+    INTRO = ("An independent adversary (who saw only the property text) produced realistic library changes that BREAK the property while the "
+             "library's\nown test suite still passes. The registered quick check MISSED these ones:\n\n" + "".join(items))
+else:
+    INTRO = """In the latest round of independently seeded breaking changes this property's check missed none, but the checks of OTHER properties
+were blind to the following classes. Audit props/%s.py against each of them, for every public function / option the statement is about
+(read the anchored sources for their signatures and docstrings), and add what is missing. In the numbered steps below read "each missed
+change" as "each blind spot you find"; to convince yourself that a new class has teeth, write 2-4 small scratch mutants of the library
+(in a scratch copy, see tools/mutant_run.sh; keep the ones that teach something as mutants/%s/m<k>_<slug>.diff) and check they are caught.
+
+  a. HOW THE CALLER SPELLS AN ARGUMENT: documented parameters passed by position in the documented order or by keyword (a change that
+     reorders or inserts a parameter only breaks positional callers); an optional parameter passed explicitly with its documented default
+     (e.g. `x=None`); flags as bool / numpy.bool_ / 0-1 (`is True` tests); scalars as Python or numpy numbers; ids as int / numpy ints.
+  b. COLLECTION FORMS: list / tuple / set / range / numpy array / dict view / deque and ONE-SHOT iterators or generators wherever the
+     code accepts "an iterable" (an argument that is iterated twice is empty the second time) - only where the docstring / code shows
+     that arbitrary iterables are meant to be accepted; and the caller's container mutated after the call.
+  c. FALSY BUT LEGITIMATE VALUES: zero weights, 0 / 0.0 / False / "" values, id 0, an empty-but-valid collection, a sparse attribute with
+     a default and no stored entry, caller-supplied dicts containing zeros (`d.get(k) or default`, `x or default`, `if x:` patterns).
+  d. MINIMAL AND LAST: empty input, one element, exactly two; the LAST element / last iteration; element id 0 in a special role (face 0 on
+     the border, vertex 0 as start); negative ids only where the unchanged library documents or consistently supports them.
+  e. THE SAME OBJECT USED TWICE: run() / the call repeated on the same worker object before any result is read; results read, then the call
+     repeated; attributes cached on the mesh by OTHER library calls beforehand (corner angles, cotangents, areas, normals, lengths, border
+     flags, a connection) combined with inputs on which the cached and the recomputed route could differ.
+  f. ILL-CONDITIONED ENDS: angles within 1e-6..1e-12 of 0 / pi, thin triangles, arguments of magnitude 1e6..1e12 - each only with an oracle
+     that is itself accurate there (exact arithmetic on integer / dyadic inputs) and a tolerance a correct implementation meets.
+  g. SIZE-DEPENDENT LOOPS: one or two cases per quick run beyond 2**16 / 10**5 elements on the path the function walks (silent iteration
+     caps), kept to a few seconds.
+""" % (low, pid)
 txt = f"""You are strengthening ONE property-based check of a verification framework that already exists in /verif, for the Python library
 in /repo (`mouette`, geometry processing). Property {pid}:
 
@@ -31,10 +59,7 @@ The check is /verif/props/{low}.py (run: `cd /verif && ./check.py {pid} quick`).
 "Conventions" (SubCheck, ctx.check / ctx.call / ctx.label, JSON-realised cases, tolerances) first, then the module itself (its RULE and
 ASSUMPTIONS strings state what it generates and assumes) and the anchored library sources under /repo/mouette.
 
-An independent adversary (who saw only the property text) produced realistic library changes that BREAK the property while the library's
-own test suite still passes. The registered quick check MISSED these ones:
-
-{''.join(items)}
+{INTRO}
 Your task:
 1. For each missed change read patch.diff / demo.py / meta.json and decide whether it really violates the property AS STATED for an input
    inside the stated domain (statement + quantifier + the library's docstrings / in-repo callers). If one is arguably outside the domain
